@@ -1,4 +1,5 @@
-// Command pkh-c14 is the correspondence harness of property C14.
+// Command pkh-c14 is the correspondence harness of property C14. With -c14child (used on the copy of
+// this command built with -race) it only runs the concurrent programs and writes their histories.
 package main
 
 import (
@@ -6,4 +7,10 @@ import (
 	"verifharness/props/c14"
 )
 
-func main() { hk.Main("C14", c14.Run, c14.NewExec) }
+func main() {
+	if c14.IsChild() {
+		c14.ChildMain()
+		return
+	}
+	hk.Main("C14", c14.Run, c14.NewExec)
+}
